@@ -970,11 +970,13 @@ class Cache:
         :raises Timeout: if database timeout occurs
 
         """
-        now = time.time()
         db_key, raw = self._disk.put(key)
-        expire_time = None if expire is None else now + expire
 
         with self._transact(retry) as (sql, _):
+            # Read the clock once the lock is held: the item may have
+            # expired while waiting for it.
+            now = time.time()
+            expire_time = None if expire is None else now + expire
             rows = sql(
                 'SELECT rowid, expire_time FROM Cache'
                 ' WHERE key = ? AND raw = ?',
@@ -1018,13 +1020,15 @@ class Cache:
         :raises Timeout: if database timeout occurs
 
         """
-        now = time.time()
         db_key, raw = self._disk.put(key)
-        expire_time = None if expire is None else now + expire
         size, mode, filename, db_value = self._disk.store(value, read, key=key)
-        columns = (expire_time, tag, size, mode, filename, db_value)
 
         with self._transact(retry, filename) as (sql, cleanup):
+            # Read the clock once the lock is held: the item may have
+            # expired while waiting for it.
+            now = time.time()
+            expire_time = None if expire is None else now + expire
+            columns = (expire_time, tag, size, mode, filename, db_value)
             rows = sql(
                 'SELECT rowid, filename, expire_time FROM Cache'
                 ' WHERE key = ? AND raw = ?',
@@ -1072,7 +1076,6 @@ class Cache:
         :raises Timeout: if database timeout occurs
 
         """
-        now = time.time()
         db_key, raw = self._disk.put(key)
         select = (
             'SELECT rowid, expire_time, filename, value FROM Cache'
@@ -1080,6 +1083,9 @@ class Cache:
         )
 
         with self._transact(retry) as (sql, cleanup):
+            # Read the clock once the lock is held: the item may have
+            # expired while waiting for it.
+            now = time.time()
             rows = sql(select, (db_key, raw)).fetchall()
 
             if not rows:
